@@ -5,6 +5,7 @@ import io
 import logging
 import math
 import os
+import signal
 import struct
 import subprocess
 import sys
@@ -102,7 +103,10 @@ def build_zoo(doc, note=None):
                  "add_revolved_surface", "add_swept_surface"):
         e = put(attempt(getattr(msp, name)))
         if e is not None:
-            e.sat = SAT
+            if doc.dxfversion >= "AC1027":
+                e.sab = b"ACIS BinaryFile" + bytes(range(40))
+            else:
+                e.sat = SAT
 
     def hatch():
         h = msp.add_hatch(color=2)
@@ -206,12 +210,21 @@ def build_zoo(doc, note=None):
             put(e)
     # every other registered type: the generic factory entry points of layouts / the objects section
     for dxftype, cls in sorted(factory.ENTITY_CLASSES.items()):
-        if dxftype in z:
+        if dxftype in z or dxftype == "MLEADER":  # MLEADER is the alias class of MULTILEADER (built above)
             continue
+        e = None
         if issubclass(cls, DXFGraphic):
-            put(attempt(lambda: msp.new_entity(dxftype, {})), dxftype)
+            e = put(attempt(lambda: msp.new_entity(dxftype, {})), dxftype)
         elif issubclass(cls, DXFObject) and doc.dxfversion > "AC1009":
-            put(attempt(lambda: doc.objects.new_entity(dxftype, {})), dxftype)
+            e = put(attempt(lambda: doc.objects.new_entity(dxftype, {"owner": doc.rootdict.dxf.handle})), dxftype)
+        if e is not None:
+            # no factory method fills in the required data of these types: give every attribute a value
+            if hasattr(e, "sat"):
+                if doc.dxfversion >= "AC1027":
+                    e.sab = b"ACIS BinaryFile" + bytes(range(40))
+                else:
+                    e.sat = SAT
+            populate(e, 0)
     return z
 
 
@@ -247,6 +260,12 @@ def value_class(code: int) -> str:
         return "point"
     t = T.TYPE_TABLE.get(code, str)
     return {int: "int", float: "float", str: "str"}[t]
+
+
+def text_for_version(v, dxfversion):
+    if isinstance(v, str) and dxfversion < "AC1021":
+        return "".join(ch for ch in v if ord(ch) < 256 or ch == "€")
+    return v
 
 
 def candidates(attr, cls_override=None):
@@ -299,6 +318,43 @@ def same_value(a, b) -> bool:
     return type(a) is type(b) and a == b
 
 
+# Attributes that carry the structure of the document rather than data: another value is not "a valid value" for the
+# document the entity lives in (the loader or the writer legitimately relies on them).
+STRUCTURAL = {
+    ("TABLE", "name"): "table head name selects the table",
+    ("*", "handle"): "identity", ("*", "owner"): "ownership is maintained by layouts/tables",
+    ("*TABLEENTRY", "name"): "table key; renaming goes through table.rename()",
+    ("BLOCK", "name"): "block name is maintained by BlocksSection.rename_block()",
+    ("BLOCK", "name2"): "written from BLOCK.name",
+    ("BLOCK_RECORD", "layout"): "link to the LAYOUT object", ("LAYOUT", "block_record_handle"): "link to the BLOCK_RECORD",
+    ("LAYOUT", "name"): "layout key; renaming goes through Layouts.rename()",
+    ("POLYLINE", "flags"): "selects 2D/3D/mesh/face structure of the linked vertices",
+    ("VERTEX", "flags"): "selects the vertex kind",
+    ("INSERT", "attribs_follow"): "computed from the attached ATTRIBs at export",
+    ("INSERT", "name"): "must name an existing block",
+    ("DIMENSION", "geometry"): "must name the dimension geometry block", ("ARC_DIMENSION", "geometry"): "same",
+    ("LARGE_RADIAL_DIMENSION", "geometry"): "same",
+    ("DIMENSION", "dimtype"): "selects the subclass that is exported", ("ARC_DIMENSION", "dimtype"): "rewritten at export",
+    ("LARGE_RADIAL_DIMENSION", "dimtype"): "selects the subclass that is exported",
+    ("CLASS", "name"): "class registry key", ("CLASS", "cpp_class_name"): "class registry key",
+    ("*", "paperspace"): "maintained by the owning layout (set_owner)",
+    ("IMAGE", "image_def_handle"): "must reference the IMAGEDEF, otherwise the IMAGE is not exported",
+    ("IMAGE", "image_def_reactor_handle"): "link to the IMAGEDEF_REACTOR",
+    ("PDFUNDERLAY", "underlay_def_handle"): "must reference the definition", ("DWFUNDERLAY", "underlay_def_handle"): "same",
+    ("DGNUNDERLAY", "underlay_def_handle"): "same", ("PDFREFERENCE", "underlay_def_handle"): "same",
+    ("GEODATA", "version"): "selects the group code layout of the whole object",
+    **{("DIMSTYLE", n + "_handle"): "derived from the resource name by set_handles() at export, discarded after loading"
+       for n in ("dimblk", "dimblk1", "dimblk2", "dimldrblk", "dimltype", "dimltex1", "dimltex2", "dimtxsty")},
+    ("VIEWPORT", "id"): "viewport id/status are renumbered by the layout", ("VIEWPORT", "status"): "same",
+}
+TABLE_ENTRY_TYPES = {"LAYER", "LTYPE", "STYLE", "DIMSTYLE", "APPID", "UCS", "VIEW", "VPORT", "BLOCK_RECORD"}
+
+
+def is_structural(dxftype: str, name: str) -> bool:
+    return ((dxftype, name) in STRUCTURAL or ("*", name) in STRUCTURAL
+            or (dxftype in TABLE_ENTRY_TYPES and ("*TABLEENTRY", name) in STRUCTURAL))
+
+
 def populate(e, salt: int = 0, skip=("handle", "owner")):
     """set every declared non-callback attribute to a value of its class that differs from the default;
     returns {name: value} for the values the setter accepted"""
@@ -306,13 +362,14 @@ def populate(e, salt: int = 0, skip=("handle", "owner")):
 
     done = {}
     dxftype = e.dxftype()
+    docver = e.doc.dxfversion if e.doc is not None else "AC1032"
     for name, a in e.DXFATTRIBS._attribs.items():
-        if a.xtype == XType.callback or name in skip or a.code < 0:
+        if a.xtype == XType.callback or name in skip or a.code < 0 or is_structural(dxftype, name):
             continue
         cands = SPECIAL_VALUES.get((dxftype, name)) or candidates(a)
         k = len(cands)
         for i in range(k):
-            v = cands[(i + salt) % k]
+            v = text_for_version(cands[(i + salt) % k], docver)
             if a.default is not None and v == a.default:
                 continue
             try:
@@ -346,6 +403,7 @@ def make_trace_writer(trace: Trace, dxfversion: str):
             code = int(code)
             if trace.cur_attr is not None:
                 trace.cur_attr[2].append(code)
+                trace.cur_attr.append(value)
             elif code == 100:
                 trace.items.append(["marker", str(value), self._stream.tell()])
             else:
@@ -353,7 +411,7 @@ def make_trace_writer(trace: Trace, dxfversion: str):
 
         def write_tag(self, tag):
             if tag.code in T.POINT_CODES and hasattr(tag, "dxftags"):
-                self._log(tag.code, None, True)  # one compiled vertex
+                self._log(tag.code, tuple(tag.value), True)  # one compiled vertex
             else:
                 self._log(tag.code, tag.value)
             super().write_tag(tag)
@@ -521,7 +579,7 @@ def trace_export(entity, dxfversion: str, force_optional=False):
             codes = it[2]
             if len(codes) > 1:
                 raise ValueError(f"{entity.dxftype()}.{it[1]}: more than one tag written for one attribute")
-            merged.append(("attr", it[1], bool(codes), codes[0] if codes else None))
+            merged.append(("attr", it[1], bool(codes), codes[0] if codes else None, it[4] if codes else None))
             i += 1
         elif it[0] == "marker":
             merged.append(("marker", it[1]))
@@ -634,6 +692,7 @@ def norm_default(attr, notes, where):
     """declared default normalised to the class of the group code (cast_value); the normalisation must be
     invisible to Python's == (the model compares values of one class only)"""
     from ezdxf.lldxf.types import cast_value
+    from ezdxf.lldxf import types as T
 
     d = attr.default
     if d is None:
@@ -645,6 +704,9 @@ def norm_default(attr, notes, where):
         return None
     if not (c == d):
         notes.append(f"{where}: default {d!r} != cast_value(default) {c!r}")
+    if attr.code in T.POINT_CODES and len(d) == 2 and (attr.xtype is None or attr.xtype.name != "point2d"):
+        raise ValueError(f"{where}: 2-component default {d!r} on an attribute that is not point2d (the forced default would be "
+                         f"written as a 2D vertex; the model normalises defaults to Vec3)")
     return c
 
 
@@ -834,3 +896,1452 @@ def regenerate(ctx):
     for n in data["notes"][:40]:
         ctx.note("T-schema note: " + n)
     ctx.write_gen("Schemas", emit_lean(data), srcs)
+
+
+# ====================================================================================== protocol values
+def pval(v) -> str:
+    from ezdxf.math import Vec3, Vec2
+
+    if v is None:
+        return "N"
+    if isinstance(v, bool):
+        return f"i{int(v)}"
+    if isinstance(v, int):
+        return f"i{v}"
+    if isinstance(v, float):
+        return f"d{fbits(v)}"
+    if isinstance(v, str):
+        return "s" + ".".join(str(ord(c)) for c in v)
+    if isinstance(v, (bytes, bytearray)):
+        return "b" + ".".join(str(b) for b in v)
+    if isinstance(v, Vec3):
+        return f"p{fbits(v.x)}.{fbits(v.y)}.{fbits(v.z)}"
+    if isinstance(v, Vec2):
+        return f"q{fbits(v.x)}.{fbits(v.y)}"
+    if isinstance(v, (tuple, list)) or hasattr(v, "__len__"):
+        v = tuple(v)
+        if len(v) == 2:
+            return f"q{fbits(v[0])}.{fbits(v[1])}"
+        if len(v) == 3:
+            return f"p{fbits(v[0])}.{fbits(v[1])}.{fbits(v[2])}"
+    raise ValueError(f"no protocol form for {v!r}")
+
+
+def ptag(tag) -> str:
+    from ezdxf.lldxf.types import DXFVertex
+
+    if isinstance(tag, DXFVertex):
+        return f"{tag.code}:{pval(tuple(tag.value))}"
+    return f"{tag.code}:{pval(tag.value)}"
+
+
+def pns(d: dict) -> str:
+    """namespace dict {name: value} -> sorted protocol form (ascending interned name)"""
+    items = sorted((enc_name(k), v) for k, v in d.items() if v is not None)
+    return ";".join(f"{k}={pval(v)}" for k, v in items)
+
+
+def pmapping(m: dict) -> str:
+    def nm(s):
+        return f"{enc_name(s)}*" if s[0] == "*" else str(enc_name(s))
+
+    out = []
+    for code in sorted(m):
+        v = m[code]
+        out.append(f"{code}=" + (",".join(nm(x) for x in v) + "+" if isinstance(v, list) else nm(v)))
+    return ";".join(out)
+
+
+class Collector:
+    """minimal AbstractTagWriter that keeps the tag objects"""
+
+    def __new__(cls, dxfversion, force=False):
+        from ezdxf.lldxf.tagwriter import AbstractTagWriter
+        from ezdxf.lldxf.types import DXFTag
+
+        class _C(AbstractTagWriter):
+            def __init__(self):
+                self.tags = []
+                self.dxfversion = dxfversion
+                self.force_optional = force
+                self.write_handles = True
+
+            def write_tag(self, tag):
+                self.tags.append(tag)
+
+            def write_tag2(self, code, value):
+                self.tags.append(DXFTag(code, value))
+
+            def write_str(self, s):
+                raise NotImplementedError
+
+        return _C()
+
+
+# ====================================================================================== X1: one attribute, synthetic
+def x1_cases(ctx):
+    from ezdxf.lldxf.attributes import DXFAttr, DXFAttributes, DefSubclass, XType
+    from ezdxf.entities.dxfentity import DXFEntity
+    from ezdxf.entities.dxfns import DXFNamespace
+    from ezdxf.lldxf.types import cast_value
+    from ezdxf.math import Vec3
+
+    rng = ctx.rng("x1")
+    nan = float("nan")
+    pools = {
+        70: ([None, 0, 1, 7, -1, 32767], [None, 0, 1, 7, 256]),
+        90: ([None, 0, 5, 2 ** 31 - 1], [None, 0, 5, -(2 ** 31)]),
+        290: ([None, 0, 1, True], [None, 0, 1]),
+        160: ([None, 0, 2 ** 40], [None, 2 ** 40, 1]),
+        40: ([None, 0, 0.0, -0.0, 1.0, 1, 2.5, nan], [None, 0.0, -0.0, 1.0, 2.5, 5e-324, nan, 1 / 3]),
+        1: ([None, "", "A", "0", "BYLAYER"], [None, "", "A", "0", "BYLAYER", "x" * 300]),
+        8: ([None, "0"], [None, "0", "L"]),
+        330: ([None, "0"], [None, "0", "FF"]),
+        10: ([None, (0, 0, 0), (0, 0, 1), Vec3(1, 2, 3), (1.0, 2.0), (-0.0, 0.0, 0.0)],
+             [None, Vec3(0, 0, 0), Vec3(0, 0, 1), Vec3(1, 2, 3), Vec3(1, 2, 0), Vec3(-0.0, 0.0, -0.0), Vec3(1, 2, -0.0),
+              Vec3(nan, 1, 0)]),
+        210: ([None, (0, 0, 1)], [None, Vec3(0, 0, 1), Vec3(0, 0, -1), Vec3(0.0, -0.0, 1.0)]),
+        11: ([None, (1, 0, 0)], [None, Vec3(1, 0, 0), Vec3(5e-324, 1e300, -1)]),
+    }
+    xts = {None: 0, XType.point2d: 1, XType.point3d: 2, XType.any_point: 3}
+    combos = []
+    for code, (defaults, values) in pools.items():
+        xtl = [None, XType.point2d, XType.point3d, XType.any_point] if code in (10, 210, 11) else [None, XType.point2d]
+        for xt in xtl:
+            for d in defaults:
+                if isinstance(d, tuple) and len(d) == 2 and xt != XType.point2d:
+                    continue  # 2-component defaults exist on point2d attributes only (checked by the tracer)
+                for opt in (False, True):
+                    for v in values:
+                        combos.append((code, xt, d, opt, v))
+    rng.shuffle(combos)
+    combos = combos[: ctx.n(2500, 20000)]
+    cases = []
+    for code, xt, d, opt, v in combos:
+        minver = rng.choice(["AC1009", "AC1009", "AC1015", "AC1021", "AC1032"])
+        ver = rng.choice(VERSIONS)
+        force = rng.random() < 0.2
+        attr = DXFAttr(code, xtype=xt, default=d, optional=opt, dxfversion=minver)
+        cls = type("Dummy", (DXFEntity,), {"DXFTYPE": "DUMMY", "DXFATTRIBS": DXFAttributes(DefSubclass(None, {"a": attr}))})
+        e = cls()
+        e.dxf = DXFNamespace(entity=e)
+        if v is not None:
+            e.dxf.set("a", v)
+        w = Collector(ver, force)
+        try:
+            e.dxf.export_dxf_attribs(w, "a")
+            impl = ptag(w.tags[0]) if w.tags else "N"
+        except Exception as ex:  # noqa
+            impl = "err " + type(ex).__name__
+        nd = None if d is None else cast_value(code, d)
+        stored = e.dxf.get("a")
+        req = f"exp|{code}|{xts[xt]}|{pval(nd)}|{int(opt)}|{vernum(minver)}|{vernum(ver)}|{int(force)}|{pval(stored)}"
+        ctx.hist("X1 export one attribute", value_class(code) + ("/opt" if opt else "/req") + ("/unset" if v is None else "/set"))
+        nontrivial = impl == "N" or xt == XType.point2d or d is not None
+        cases.append((req, impl, nontrivial))
+    return cases
+
+
+# ====================================================================================== X2: loaders, synthetic
+NAMEPOOL = ["alpha", "beta", "gamma", "delta", "flags", "layer", "color", "*cb", "*IGNORE", "*other", "x1", "y2", "linetype"]
+CODEPOOL = [1, 2, 3, 8, 6, 62, 70, 70, 71, 90, 40, 41, 10, 11, 210, 330, 370, 48, 60, 420, 430, 440, 284, 347, 290]
+RECOVER_VALUES = {8: ["L1", "0"], 6: ["DASHED", "BYLAYER"], 62: [3, 256], 67: [1, 0], 370: [13, 50], 48: [2.0, 0.5], 60: [1, 0],
+                  420: [255, 1], 430: ["red"], 440: [0x02000080], 284: [1, 2], 347: ["AB"], 348: ["AC"], 380: [2], 390: ["AD"]}
+
+
+def rand_value(rng, code):
+    from ezdxf.math import Vec3
+
+    if code in RECOVER_VALUES:
+        # always valid for the attribute validators: recover_graphic_attributes() goes through dxf.set(), whose
+        # validators/fixers are outside the model
+        return rng.choice(RECOVER_VALUES[code])
+    vc = value_class(code)
+    if vc == "point":
+        return rng.choice([(1.0, 2.0), (1.0, 2.0, 3.0), (-0.0, 5e-324, 1e300), (0.5, 0.25)])
+    if vc == "int":
+        return rng.choice([0, 1, 2, 3, 7, 100])
+    if vc == "float":
+        return rng.choice([0.0, -0.0, 1.5, 1 / 3, 1e300])
+    return rng.choice(["", "A", "txt", "FF", "0"])
+
+
+def x2_cases(ctx):
+    from ezdxf.entities import Line
+    from ezdxf.entities.dxfns import SubclassProcessor
+    from ezdxf.lldxf.extendedtags import ExtendedTags
+    from ezdxf.lldxf.tags import Tags
+    from ezdxf.lldxf.types import dxftag, DXFTag
+
+    rng = ctx.rng("x2")
+    cases = []
+    base = ExtendedTags([DXFTag(0, "LINE"), DXFTag(5, "1"), DXFTag(100, "AcDbEntity"), DXFTag(8, "0")])
+    for i in range(ctx.n(4000, 40000)):
+        # mapping
+        m = {}
+        for _ in range(rng.randint(0, 6)):
+            code = rng.choice(CODEPOOL)
+            if rng.random() < 0.35:
+                m[code] = [rng.choice(NAMEPOOL) for _ in range(rng.randint(1, 3))]
+            else:
+                m[code] = rng.choice(NAMEPOOL)
+        codes = list(m) or [70]
+        # tags
+        raw = []
+        for _ in range(rng.randint(0, 9)):
+            code = rng.choice(codes) if rng.random() < 0.6 else rng.choice(CODEPOOL)
+            raw.append((code, rand_value(rng, code)))
+        kind = rng.choice(["fast", "fast", "fast-r12", "simple", "fast-recover"])
+        first = rng.choice([None, None, (100, "AcDbX"), (0, "LINE")])
+        if kind == "fast-r12":
+            first = (0, "LINE")
+        if first is not None:
+            raw.insert(0, first)
+        tags = [dxftag(c, v) for c, v in raw]
+        pre = {}
+        for _ in range(rng.randint(0, 2)):
+            pre[rng.choice(["alpha", "layer", "color", "x1"])] = rng.choice([1, "s", 2.5])
+        e = Line()
+        e.dxf = __import__("ezdxf.entities.dxfns", fromlist=["DXFNamespace"]).DXFNamespace(entity=e)
+        e.dxf.reset_handles()
+        for k, v in pre.items():
+            e.dxf.unprotected_set(k, v)
+        rcv = kind == "fast-recover"
+        rc, r12 = int(rcv), int(kind == "fast-r12")
+        try:
+            if kind == "fast-r12":
+                proc = SubclassProcessor(ExtendedTags(tags), dxfversion="AC1009")
+                unp = proc.fast_load_dxfattribs(e.dxf, m, 0, recover=rng.random() < 0.5, log=False)
+            elif kind == "simple":
+                proc = SubclassProcessor(ExtendedTags(tags if first == (0, "LINE") else [DXFTag(0, "LINE")] + tags), dxfversion="AC1015")
+                all_tags = [t for sub in proc.subclasses for t in sub]
+                proc.simple_dxfattribs_loader(e.dxf, m)
+                unp = None
+                tags = all_tags
+            else:
+                proc = SubclassProcessor(base, dxfversion="AC1015")
+                unp = proc.fast_load_dxfattribs(e.dxf, m, Tags(tags), recover=rcv, log=False)
+            ns = {k: v for k, v in e.dxf.all_existing_dxf_attribs().items() if k not in ("handle", "owner")}
+            impl = pns(ns) + ("" if unp is None else "|" + ";".join(ptag(t) for t in unp))
+        except Exception as ex:  # noqa
+            impl = "err " + type(ex).__name__
+        tl = ";".join(ptag(t) for t in tags)
+        if kind == "simple":
+            req = f"simple|{pmapping(m)}|{tl}|{pns(pre)}"
+        else:
+            req = f"fast|{rc}|{r12}|{pmapping(m)}|{tl}|{pns(pre)}"
+        ctx.hist("X2 generic loaders", kind)
+        nontrivial = any(isinstance(v, list) for v in m.values()) or any(t.code in m for t in tags)
+        cases.append((req, impl, nontrivial))
+    return cases
+
+
+# ====================================================================================== X3: registered classes
+def randomize_namespace(e, rng, keep=("handle", "owner")):
+    """random state of the namespace of a real entity: every declared non-callback attribute is unset, set to its
+    default, or set to a value of its class (through the public setter, validators may refuse)"""
+    from ezdxf.lldxf.attributes import XType
+
+    dxftype = e.dxftype()
+    for name, a in e.DXFATTRIBS._attribs.items():
+        if a.xtype == XType.callback or name in keep or a.code < 0:
+            continue
+        r = rng.random()
+        if r < 0.25:
+            if (dxftype, name) not in REQUIRED_ATTRIBS and name not in REQUIRED_NAMES:
+                e.dxf.discard(name)
+        elif r < 0.45 and a.default is not None:
+            try:
+                e.dxf.set(name, a.default)
+            except Exception:  # noqa
+                pass
+        else:
+            cands = SPECIAL_VALUES.get((dxftype, name)) or candidates(a)
+            for _ in range(3):
+                try:
+                    e.dxf.set(name, rng.choice(cands))
+                    break
+                except Exception:  # noqa
+                    continue
+
+
+# attributes the export code of an entity reads unconditionally (a missing value is an AttributeError/DXFError in
+# export_entity, i.e. not a document "reachable through the factory methods")
+REQUIRED_NAMES = {"name", "layer"}
+REQUIRED_ATTRIBS = {("INSERT", "name"), ("DIMENSION", "dimtype"), ("ARC_DIMENSION", "dimtype"),
+                    ("LARGE_RADIAL_DIMENSION", "dimtype")}
+
+
+# attributes whose exported value is computed by export_entity itself (not the generic machinery)
+BESPOKE_EXPORT = {("ARC_DIMENSION", "dimtype"): "ArcDimension.export_entity rewrites dimtype (5 up to R2013, 8 from R2018) and restores it"}
+
+
+def expent_line(segs) -> str:
+    out = []
+    for marker, evs in segs:
+        items = []
+        if marker is not None:
+            items.append(f"0@M{enc_name(marker)}")
+        for i, ev in enumerate(evs):
+            if ev[0] == "raw":
+                items.append(f"{i + 1}@r{ev[1]}")
+            elif ev[2]:
+                items.append(f"{i + 1}@{enc_name(ev[1])}:{ev[3]}:{pval(ev[4])}")
+            else:
+                items.append(f"{i + 1}@{enc_name(ev[1])}:N")
+        out.append(";".join(items))
+    return "/".join(out)
+
+
+def plan_shape(segs):
+    return [(m, [(e[0], e[1]) for e in evs]) for m, evs in segs]
+
+
+def x3_cases(ctx):
+    """real export_dxf / load of one instance per registered class with random namespaces vs. the model running the
+    generated plan of that class and version"""
+    import ezdxf
+    from ezdxf.entities import factory
+    from ezdxf.lldxf.attributes import XType
+    from ezdxf.lldxf.extendedtags import ExtendedTags
+    from ezdxf.lldxf.types import cast_value
+
+    rng = ctx.rng("x3")
+    data = schemas(ctx)
+    doc = ezdxf.new("R2018")
+    zoo = build_zoo(doc)
+    load_docs = {v: ezdxf.new(VNAME[v]) for v in VERSIONS}
+    exp_cases, load_cases = [], []
+    shape_changes = 0
+    per = ctx.n(3, 12)
+    for c in data["classes"]:
+        e = zoo.get(c["dxftype"])
+        if e is None or not c["plans"]:
+            continue
+        cls = factory.ENTITY_CLASSES[c["dxftype"]]
+        plans = {p["ver"]: p for p in c["plans"]}
+        callbacks = [n for n, a in cls.DXFATTRIBS._attribs.items() if a.xtype == XType.callback]
+        for k in range(per):
+            randomize_namespace(e, rng)
+            for ver in VERSIONS:
+                p = plans.get(vernum(ver))
+                if p is None:
+                    continue
+                if ctx.quick and rng.random() < 0.5 and k > 0:
+                    continue
+                force = rng.random() < 0.15
+                try:
+                    tr = trace_export(e, ver, force_optional=force)
+                except Exception as ex:  # noqa
+                    ctx.hist("X3 registered classes", "export raised " + type(ex).__name__)
+                    continue
+                if tr is None:
+                    continue
+                text, segs = tr
+                if plan_shape(segs) != plan_shape(p["segs"]):
+                    # data dependent branch in export_entity: the generated plan describes another shape
+                    shape_changes += 1
+                    ctx.hist("X3 registered classes", "other export shape (data dependent)")
+                    continue
+                # The setter stores cast_value(code, value); the one exception is a RETURN_DEFAULT fixer, which stores the
+                # declared default uncast (int 1 under a float code).  Python's == and the tag writer's cast_tag_value do
+                # not distinguish it from its cast, the model has one value per class: normalise.
+                ns = {}
+                for k2, v in e.dxf.all_existing_dxf_attribs().items():
+                    if k2 in ("handle", "owner") or v is None:
+                        continue
+                    a = cls.DXFATTRIBS.get(k2)
+                    ns[k2] = cast_value(a.code, v) if a is not None and a.code > 0 else v
+                for (dt, an), _why in BESPOKE_EXPORT.items():
+                    if dt == c["dxftype"]:
+                        for _, evs in segs:
+                            for ev in evs:
+                                if ev[0] == "attr" and ev[1] == an and ev[2]:
+                                    ns[an] = ev[4]
+                for cb in callbacks:
+                    try:
+                        ns[cb] = e.dxf.get(cb)
+                    except Exception:  # noqa
+                        pass
+                try:
+                    nsline = pns(ns)
+                except ValueError:
+                    continue
+                req = f"expent|{enc_name(c['dxftype'])}|{vernum(ver)}|{int(force)}|{nsline}"
+                exp_cases.append((req, expent_line(segs), True))
+                ctx.hist("X3 registered classes", "export " + VNAME[ver])
+                # load side
+                try:
+                    xt = ExtendedTags.from_text(text)
+                    subs = []
+                    for sub, seg in zip(xt.subclasses, segs):
+                        labs = written_labels(seg)
+                        subs.append(";".join(f"{lab}@{ptag(t)}" for t, (lab, _) in zip(sub, labs)))
+                    HOOKS.install()
+                    HOOKS.loads = []
+                    try:
+                        ent = factory.load(xt, load_docs[ver])
+                    finally:
+                        recs, HOOKS.loads = HOOKS.loads, None
+                except Exception as ex:  # noqa
+                    ctx.hist("X3 registered classes", "load raised " + type(ex).__name__)
+                    continue
+                names = {ev[1] for _, evs in p["segs"] for ev in evs if ev[0] == "attr"}
+                # the namespace right after the last generic loader call (bespoke post-processing comes later)
+                after = recs[-1]["after"] if recs else {}
+                got = {k2: v for k2, v in after.items() if k2 in names and v is not None}
+                try:
+                    resp = pns(got)
+                except ValueError:
+                    continue
+                load_cases.append((f"loadent|{enc_name(c['dxftype'])}|{vernum(ver)}|{'/'.join(subs)}", resp, True))
+                ctx.hist("X3 registered classes", "load " + VNAME[ver])
+    ctx.note(f"X3: {len(exp_cases)} exports, {len(load_cases)} loads, {shape_changes} exports took a data dependent branch not described by the traced plan (skipped)")
+    return exp_cases, load_cases
+
+
+def x3_all(ctx):
+    a, b = x3_cases(ctx)
+    return a + b
+
+
+# ====================================================================================== oracle on the real code
+# (dxftype, attribute) pairs whose value after reload legitimately differs from the value set before: every entry
+# names the code that makes it so.  Everything else that differs is reported.
+BY_DESIGN = {
+    # legacy elevation (group 38): dxfgfx.elevation_to_z_axis() moves it into the z-axis, never exported
+    **{(t, "elevation"): "legacy group code 38, folded into z by elevation_to_z_axis(), never exported"
+       for t in ("ARC", "ATTDEF", "ATTRIB", "CIRCLE", "INSERT", "SHAPE", "SOLID", "TEXT", "TRACE", "POINT", "LINE", "3DFACE")},
+    ("BLOCK", "flags"): "bit 2 (has attdefs) is computed from the block content at export",
+    ("MLINE", "flags"): "bit 1 (has vertices) is computed at export",
+    ("TABLE", "count"): "number of entries, computed at export",
+    ("WIPEOUT", "count_boundary_points"): "computed from the boundary path",
+    ("IMAGE", "count_boundary_points"): "computed from the boundary path",
+    ("WIPEOUT", "image_def_handle"): "a WIPEOUT has no image definition, always written as 0",
+    ("WIPEOUT", "image_def_reactor_handle"): "same",
+    ("INSERT", "attribs_follow"): "computed from the attached ATTRIBs",
+    ("HATCH", "n_seed_points"): "number of seed points, computed", ("MPOLYGON", "n_seed_points"): "same",
+    ("HATCH", "pattern_angle"): "pattern data are written for pattern fills only (solid_fill=0)",
+    ("HATCH", "pattern_scale"): "same", ("HATCH", "pattern_double"): "same",
+    ("MPOLYGON", "pattern_angle"): "same", ("MPOLYGON", "pattern_scale"): "same", ("MPOLYGON", "pattern_double"): "same",
+    ("MPOLYGON", "hatch_style"): "not part of the MPOLYGON export",
+    ("DIMENSION", "defpoint4"): "belongs to another dimension type than the exported subclass",
+    ("DIMENSION", "defpoint5"): "same", ("DIMENSION", "leader_length"): "same", ("DIMENSION", "angle"): "same",
+    ("DIMENSION", "defpoint2"): "same", ("DIMENSION", "defpoint3"): "same", ("DIMENSION", "oblique_angle"): "same",
+    ("ARC_DIMENSION", "defpoint5"): "same", ("ARC_DIMENSION", "leader_length"): "same", ("ARC_DIMENSION", "angle"): "same",
+    ("ARC_DIMENSION", "oblique_angle"): "same",
+    ("LARGE_RADIAL_DIMENSION", "defpoint2"): "same", ("LARGE_RADIAL_DIMENSION", "defpoint3"): "same",
+    ("LARGE_RADIAL_DIMENSION", "defpoint5"): "same", ("LARGE_RADIAL_DIMENSION", "angle"): "same",
+    ("LARGE_RADIAL_DIMENSION", "oblique_angle"): "same", ("LARGE_RADIAL_DIMENSION", "leader_length"): "same",
+    **{("DIMSTYLE", n + "_handle"): "resource handles are derived from the names at export and discarded after loading"
+       for n in ("dimblk", "dimblk1", "dimblk2", "dimldrblk", "dimltype", "dimltex1", "dimltex2", "dimtxsty")},
+    ("DIMSTYLE", "dimldrblk"): "post_load_hook() stores the default arrow name '' when no handle is present",
+    ("DIMSTYLE", "dimblk"): "same", ("DIMSTYLE", "dimblk1"): "same", ("DIMSTYLE", "dimblk2"): "same",
+    ("DGNUNDERLAY", "flags"): "reset_boundary_path() clears the clipping bit when there is no clipping path",
+    ("DWFUNDERLAY", "flags"): "same", ("PDFUNDERLAY", "flags"): "same", ("PDFREFERENCE", "flags"): "same",
+    ("SPATIAL_FILTER", "front_clipping_plane_distance"): "written only if has_front_clipping_plane",
+    ("SPATIAL_FILTER", "back_clipping_plane_distance"): "written only if has_back_clipping_plane",
+    ("GEODATA", "north_direction"): "discarded for GEODATA version 1 (group code clash documented in geodata.py)",
+    ("ARC_DIMENSION", "dimtype"): "ArcDimension.export_entity writes the type number of the target version (5 / 8)",
+    ("DIMSTYLE", "dimfit"): "obsolete variable (comment in dimstyle.py: use DIMATFIT and DIMTMOVE), in no export map",
+    ("DIMSTYLE", "dimunit"): "obsolete variable (comment in dimstyle.py), in no export map",
+    ("3DSOLID", "history_handle"): "the AcDb3dSolid subclass is written from DXF R2007 on (version test in export_entity)",
+    ("MPOLYGON", "fill_color"): "written for versions after DXF R2000 only (explicit version test in MPolygon.export_entity)",
+}
+
+ATTR_NEVER = ("handle",)
+
+
+def entity_payload(e):
+    """type specific data held outside the DXF namespace, canonical and hashable"""
+    t = e.dxftype()
+
+    def fl(x):
+        return ("f", fbits(x))
+
+    def pt(p):
+        return tuple(fbits(c) for c in p)
+
+    try:
+        if t == "LWPOLYLINE":
+            # zero widths / bulges are not written and come back as +0.0 (theorem lwpoints_roundtrip): -0.0 == 0.0
+            return tuple((fbits(p[0]), fbits(p[1])) + tuple(fbits(c) if c != 0 else 0 for c in p[2:]) for p in e.get_points("xyseb"))
+        if t == "POLYLINE":
+            return tuple((v.dxf.handle, pt(v.dxf.location), v.dxf.get("flags", 0), fl(v.dxf.get("bulge", 0.0)),
+                          fl(v.dxf.get("start_width", 0.0)), fl(v.dxf.get("end_width", 0.0)),
+                          tuple(v.dxf.get(f"vtx{i}", 0) for i in range(4))) for v in e.vertices) + (
+                e.seqend.dxf.handle if e.seqend is not None else None,)
+        if t == "INSERT":
+            # the SEQEND of an INSERT without ATTRIBs is not part of the file
+            return tuple((a.dxf.handle, a.dxf.tag, a.dxf.text) for a in e.attribs) + (
+                e.seqend.dxf.handle if (e.seqend is not None and len(e.attribs)) else None,)
+        if t in ("SPLINE", "HELIX"):
+            return (tuple(pt(p) for p in e.control_points), tuple(fbits(k) for k in e.knots),
+                    tuple(fbits(w) for w in e.weights), tuple(pt(p) for p in e.fit_points))
+        if t in ("HATCH", "MPOLYGON"):
+            paths = []
+            for p in e.paths:
+                if p.type.name == "POLYLINE":
+                    paths.append(("P", p.path_type_flags, bool(p.is_closed), tuple(tuple(fbits(c) for c in v) for v in p.vertices),
+                                  tuple(p.source_boundary_objects)))
+                else:
+                    edges = []
+                    for ed in p.edges:
+                        k = ed.type.name
+                        if k == "LINE":
+                            edges.append((k, pt(ed.start), pt(ed.end)))
+                        elif k == "ARC":
+                            edges.append((k, pt(ed.center), fbits(ed.radius), fbits(ed.start_angle), fbits(ed.end_angle), ed.ccw))
+                        elif k == "ELLIPSE":
+                            edges.append((k, pt(ed.center), pt(ed.major_axis), fbits(ed.ratio), fbits(ed.start_angle),
+                                          fbits(ed.end_angle), ed.ccw))
+                        else:
+                            edges.append((k, ed.degree, ed.rational, ed.periodic, tuple(fbits(x) for x in ed.knot_values),
+                                          tuple(pt(c) for c in ed.control_points), tuple(fbits(w) for w in ed.weights),
+                                          tuple(pt(c) for c in ed.fit_points),
+                                          None if ed.start_tangent is None else pt(ed.start_tangent),
+                                          None if ed.end_tangent is None else pt(ed.end_tangent)))
+                    paths.append(("E", p.path_type_flags, tuple(edges), tuple(p.source_boundary_objects)))
+            pat = None
+            if e.pattern is not None:
+                pat = tuple((fbits(l.angle), pt(l.base_point), pt(l.offset), tuple(fbits(d) for d in l.dash_length_items))
+                            for l in e.pattern.lines) or None  # a pattern object without lines is no pattern
+            grad = None
+            if e.gradient is not None:
+                g = e.gradient
+                grad = (g.kind, g.name, fbits(g.rotation), fbits(g.centered), fbits(g.tint), tuple(g.color1), tuple(g.color2),
+                        g.aci1, g.aci2)
+                if g.kind == 0:
+                    grad = None  # kind 0 = "solid hatch": no gradient
+            return (tuple(paths), pat, grad, tuple(pt(p) for p in e.seeds))
+        if t == "MTEXT":
+            return (e.text,)
+        if t == "MESH":
+            return (tuple(pt(v) for v in e.vertices), tuple(tuple(f) for f in e.faces), tuple(tuple(x) for x in e.edges),
+                    tuple(fbits(c) for c in e.creases))
+        if t == "MLINE":
+            return tuple((pt(v.location), pt(v.line_direction), pt(v.miter_direction),
+                          tuple(tuple(fbits(x) for x in lp) for lp in v.line_params),
+                          tuple(tuple(fbits(x) for x in fp) for fp in v.fill_params)) for v in e.vertices)
+        if t == "LEADER":
+            return tuple(pt(v) for v in e.vertices)
+        if t in ("IMAGE", "WIPEOUT"):
+            return tuple(pt(v) for v in e.boundary_path)
+        if t in ("PDFUNDERLAY", "DWFUNDERLAY", "DGNUNDERLAY", "PDFREFERENCE"):
+            return tuple(pt(v) for v in e.boundary_path)
+        if t == "LTYPE":
+            # R12: the handle tag stays in the pattern tags; (74, 0) = "simple dash element" does not exist in R12
+            return tuple((tg.code, tg.value) for tg in e.pattern_tags.tags if tg.code != 5 and (tg.code, tg.value) != (74, 0))
+        if t == "XRECORD":
+            return tuple((tg.code, tg.value if not hasattr(tg.value, "__len__") or isinstance(tg.value, (str, bytes)) else tuple(tg.value)) for tg in e.tags)
+        if t in ("DICTIONARY", "ACDBDICTIONARYWDFLT"):
+            return tuple(sorted((k, v if isinstance(v, str) else v.dxf.handle) for k, v in e.items()
+                                if k not in ("CREATED_BY_EZDXF", "WRITTEN_BY_EZDXF")))  # ezdxf meta data, written at export
+        if t == "GROUP":
+            return tuple(x.dxf.handle for x in e)
+        if t == "MLINESTYLE":
+            return tuple((fbits(el.offset), el.color, el.linetype) for el in e.elements)
+        if t in ("3DSOLID", "BODY", "REGION", "SURFACE", "EXTRUDEDSURFACE", "LOFTEDSURFACE", "REVOLVEDSURFACE", "SWEPTSURFACE"):
+            return (tuple(e.sat), bytes(e.sab) if e.has_binary_data else b"")
+        if t in ("MULTILEADER", "MLEADER"):
+            c = e.context
+            return (fbits(c.scale), pt(c.base_point), fbits(c.char_height), fbits(c.arrow_head_size),
+                    None if c.mtext is None else (c.mtext.default_content, pt(c.mtext.insert), fbits(c.mtext.rotation), c.mtext.alignment),
+                    tuple((pt(ld.last_leader_point) if ld.has_last_leader_line else None,
+                           tuple(tuple(pt(v) for v in ln.vertices) for ln in ld.lines)) for ld in c.leaders),
+                    tuple(sorted(e.arrow_heads.items())) if hasattr(e, "arrow_heads") else None)
+        if t == "DIMENSION":
+            return (tuple(sorted((k, repr(v)) for k, v in e.override().dimstyle_attribs.items())) if e.doc else None,)
+        if t == "SORTENTSTABLE":
+            return tuple(e.table.items()) if hasattr(e, "table") else None
+        if t == "IMAGEDEF_REACTOR":
+            return (e.dxf.get("image_handle"),)
+        if t == "VISUALSTYLE":
+            return tuple((tg.code, tg.value) for tg in getattr(e, "acad_xdata", []) or [])
+        if t == "GEODATA":
+            return (e.coordinate_system_definition, tuple(pt(v) for v in e.source_vertices), tuple(pt(v) for v in e.target_vertices),
+                    tuple(tuple(f) for f in e.faces))
+    except Exception as ex:  # noqa  a payload accessor that raises is itself an observation
+        return ("EXC", type(ex).__name__, str(ex)[:60])
+    return None
+
+
+def entity_snapshot(e):
+    from ezdxf.lldxf.attributes import XType
+
+    attrs = {}
+    for name, a in e.DXFATTRIBS._attribs.items():
+        if a.xtype == XType.callback or name in ATTR_NEVER:
+            continue
+        try:
+            attrs[name] = e.dxf.get_default(name)
+        except Exception as ex:  # noqa
+            attrs[name] = ("EXC", type(ex).__name__)
+    xdata = None
+    if e.xdata is not None:
+        xdata = tuple(sorted((app, tuple((t.code, t.value if not hasattr(t.value, "xyz") else tuple(fbits(c) for c in t.value)) for t in tags))
+                             for app, tags in e.xdata.data.items() if app != "EZDXF"))  # EZDXF = meta data with time stamps (R12)
+        if not xdata:
+            xdata = None
+    appdata = None
+    if e.appdata is not None:
+        appdata = tuple(sorted((app, tuple((t.code, t.value) for t in tags)) for app, tags in e.appdata.data.items()))
+    reactors = tuple(sorted(e.reactors.get())) if e.reactors is not None else None
+    xdict = None
+    if e.has_extension_dict:
+        try:
+            d = e.extension_dict.dictionary
+            xdict = (d.dxf.handle, tuple(sorted((k, v if isinstance(v, str) else v.dxf.handle) for k, v in d.items())))
+        except Exception as ex:  # noqa
+            xdict = ("EXC", type(ex).__name__)
+    return {"type": e.dxftype(), "attrs": attrs, "payload": entity_payload(e), "xdata": xdata, "appdata": appdata,
+            "reactors": reactors, "xdict": xdict}
+
+
+def doc_snapshot(doc):
+    ents = {}
+    for e in doc.entitydb.values():
+        if e.is_alive and e.dxf.handle is not None:
+            ents[e.dxf.handle] = entity_snapshot(e)
+    spaces = {}
+    for lay in doc.layouts:
+        spaces["L:" + lay.name] = [e.dxf.handle for e in lay]
+    for blk in doc.blocks:
+        spaces["B:" + blk.name] = [e.dxf.handle for e in blk]
+    tables = {}
+    for tname in ("layers", "linetypes", "styles", "dimstyles", "appids", "ucs", "views", "viewports", "block_records"):
+        tab = getattr(doc, tname)
+        tables[tname] = sorted((e.dxf.name, e.dxf.handle) for e in tab if e.dxf.hasattr("name"))
+    objects = [o.dxf.handle for o in doc.objects] if doc.dxfversion > "AC1009" else []
+    layouts = [(n, doc.layouts.get(n).dxf.get("taborder")) for n in doc.layouts.names_in_taborder()]
+    # what the document structure reaches (entities that were unlinked from every layout stay in the entity database
+    # until purge() but are not part of the document that is written)
+    reach = set(objects)
+    for hs in spaces.values():
+        reach.update(hs)
+    for rows in tables.values():
+        reach.update(h for _, h in rows)
+    for blk in doc.blocks:
+        for x in (blk.block, blk.endblk, blk.block_record):
+            if x is not None:
+                reach.add(x.dxf.handle)
+    for tname in ("layers", "linetypes", "styles", "dimstyles", "appids", "ucs", "views", "viewports", "block_records"):
+        reach.add(getattr(doc, tname).head.dxf.handle)
+    for e in doc.entitydb.values():
+        if e.is_alive and e.dxf.handle in reach and hasattr(e, "all_sub_entities"):
+            reach.update(x.dxf.handle for x in e.all_sub_entities() if x is not None and x.is_alive)
+    for h, b in ents.items():
+        b["_reach"] = h in reach
+        if b["type"] == "GROUP" and b["payload"] is not None:
+            # groups drop members that left the document or live in a block definition (dxfgroups._has_valid_owner)
+            inlayouts = {x for k, hs in spaces.items() if k.startswith("L:") for x in hs}
+            b["payload"] = tuple(x for x in b["payload"] if x in inlayouts)
+    return {"ents": ents, "spaces": spaces, "tables": tables, "objects": objects, "layouts": layouts}
+
+
+def write_doc(doc, fmt: str) -> bytes:
+    if fmt == "asc":
+        s = io.StringIO()
+        doc.write(s)
+        return s.getvalue().encode(doc.output_encoding, "dxfreplace") if hasattr(doc, "output_encoding") else s.getvalue().encode("utf8")
+    b = io.BytesIO()
+    doc.write(b, fmt="bin")
+    return b.getvalue()
+
+
+def read_doc(data: bytes, fmt: str, scratch):
+    import ezdxf
+
+    fn = os.path.join(str(scratch), f"rt-{os.getpid()}.dxf")
+    with open(fn, "wb") as fh:
+        fh.write(data)
+    try:
+        return ezdxf.readfile(fn)
+    finally:
+        try:
+            os.remove(fn)
+        except OSError:
+            pass
+
+
+# $HANDSEED: loading allocates handles for what the file does not carry (R12 tables and block records, the SEQEND of an
+# INSERT without ATTRIBs), so the next free handle moves although every written handle stays
+VOLATILE = {"$TDUPDATE", "$TDUUPDATE", "$VERSIONGUID", "$FINGERPRINTGUID", "$TDCREATE", "$TDUCREATE", "$HANDSEED"}
+
+
+import re as _re
+
+STAMP = _re.compile(r"^\d+\.\d+(\.\d+)?\S* @ \d{4}-\d\d-\d\dT")
+
+
+def stable_records(data: bytes, fmt: str):
+    """the file as a list of (code, value) with the volatile header variables removed (harness-owned parser)"""
+    import dxfparse
+
+    tags = dxfparse.parse_binary(data) if fmt == "bin" else dxfparse.parse_ascii(data.decode("utf8", "surrogateescape"))
+    out = []
+    skip = False
+    r12 = False
+    meta = 0
+    for code, value in tags:
+        if isinstance(value, str):
+            value = value.strip() if code not in (1, 3, 1000) else value
+            k = dxfparse._cls(code)
+            try:
+                if k == "d":
+                    value = ("f", fbits(float(value)))
+                elif k in ("b", "h", "i", "q"):
+                    value = int(value)
+            except ValueError:
+                pass
+        elif isinstance(value, float):
+            value = ("f", fbits(value))
+        if code == 9:
+            skip = value in VOLATILE
+        elif code == 0:
+            skip = False
+        if code == 1 and value == "AC1009" and out and out[-1] == (9, "$ACADVER"):
+            r12 = True
+        if code == 1 and isinstance(value, str) and STAMP.match(value):
+            value = "<time stamp>"
+        if code == 1000 and meta:
+            meta -= 1
+            value = "<time stamp>"
+        if code in (1000, 3) and value in ("CREATED_BY_EZDXF", "WRITTEN_BY_EZDXF"):
+            meta = 1 if code == 1000 else 0
+        if not skip:
+            out.append((code, value))
+    return out
+
+
+def first_diff(a, b, path=""):
+    """path and values of the first differing leaf of two nested tuples"""
+    if isinstance(a, tuple) and isinstance(b, tuple):
+        if len(a) != len(b):
+            return f"{path}: length {len(a)} -> {len(b)}"
+        for i, (x, y) in enumerate(zip(a, b)):
+            if x != y:
+                return first_diff(x, y, f"{path}[{i}]")
+        return path
+    return f"{path}: {a!r:.60} -> {b!r:.60}"
+
+
+def py_equal(a, b) -> bool:
+    from ezdxf.math import Vec3, Vec2
+
+    try:
+        if isinstance(a, (Vec3, Vec2)) or isinstance(b, (Vec3, Vec2)):
+            return Vec3(a) == Vec3(b)
+        return bool(a == b)
+    except Exception:  # noqa
+        return False
+
+
+def attr_equal(attr, before, after) -> bool:
+    """the property's predicate for one attribute: bit-exact, or equal under Python == where the writer's documented
+    normalisation applies (value suppressed as equal to the default; int stored by a RETURN_DEFAULT fixer under a float
+    code; z of an explicit 2D point)"""
+    from ezdxf.lldxf.attributes import XType
+    from ezdxf.math import Vec3
+
+    if before is None and after is None:
+        return True
+    if before is None or after is None:
+        return False
+    if same_value(before, after):
+        return True
+    if attr.xtype == XType.point2d:
+        try:
+            b3, a3 = Vec3(before), Vec3(after)
+            return fbits(b3.x) == fbits(a3.x) and fbits(b3.y) == fbits(a3.y) and a3.z == 0.0
+        except Exception:  # noqa
+            return False
+    if not py_equal(before, after):
+        return False
+    if attr.default is not None and py_equal(attr.default, before):
+        return True  # suppressed optional value / forced default comes back as the declared default
+    if isinstance(before, int) and isinstance(after, float):
+        return True
+    return False
+
+
+def min_export_versions():
+    from ezdxf.entities import factory
+
+    return {t: c.MIN_DXF_VERSION_FOR_EXPORT for t, c in factory.ENTITY_CLASSES.items()}
+
+
+def compare_docs(ctx, stream, before, after, ver: str, fmt: str, rep: dict, classes, label=""):
+    """compare two snapshots; report every difference that the property does not permit"""
+    minv = min_export_versions()
+    nfail = 0
+    for h, b in before["ents"].items():
+        t = b["type"]
+        a = after["ents"].get(h)
+        if not b.get("_reach", True):
+            ctx.hist(stream, "entity not linked to the document structure")
+            continue
+        if a is None:
+            if minv.get(t, "AC1009") > ver:
+                ctx.hist(stream, "entity dropped: type newer than file version")
+                continue
+            if ver == "AC1009" and b.get("_kind") in ("object", "tableentry", "blockrecord"):
+                ctx.hist(stream, "not represented in DXF R12")
+                continue
+            if b.get("_kind") == "seqend-without-attribs":
+                ctx.hist(stream, "SEQEND of an INSERT without ATTRIBs is not written")
+                continue
+            ctx.fail(f"lost/{t}/{VNAME[ver]}", f"{label}{VNAME[ver]} {fmt}: {t}(#{h}) is missing after reload", rep)
+            nfail += 1
+            continue
+        if a["type"] != t:
+            ctx.fail(f"retyped/{t}/{a['type']}", f"{label}{VNAME[ver]} {fmt}: #{h} was {t}, reloads as {a['type']}", rep)
+            continue
+        cls = classes[t] if t in classes else None
+        for name, v in b["attrs"].items():
+            attr = cls.DXFATTRIBS.get(name) if cls else None
+            if attr is None:
+                continue
+            if attr.dxfversion > ver:
+                continue  # the permitted loss
+            v2 = a["attrs"].get(name)
+            if attr_equal(attr, v, v2):
+                continue
+            if name == "owner" and (ver == "AC1009" or v is None):
+                # DXF R12 has no owner tags; an unset owner is assigned by the table / section at export
+                ctx.hist(stream, "owner assigned by the container")
+                continue
+            if (t, name) in BY_DESIGN:
+                ctx.hist(stream, "by design: " + BY_DESIGN[(t, name)][:50])
+                continue
+            vcls = "R12" if ver == "AC1009" else "R2000+"
+            ctx.fail(f"attr/{t}/{vcls}/{name}", f"{label}{VNAME[ver]} {fmt}: {t}(#{h}).dxf.{name} = {v!r:.80} before, {v2!r:.80} after reload", rep)
+            nfail += 1
+        for part in ("payload", "xdata", "appdata", "reactors", "xdict"):
+            if b[part] != a[part]:
+                ctx.fail(f"{part}/{t}/{VNAME[ver] if ver == 'AC1009' else 'R2000+'}",
+                         f"{label}{VNAME[ver]} {fmt}: {t}(#{h}) {part} differs at {first_diff(b[part], a[part])}", rep)
+                nfail += 1
+    for k, hs in before["spaces"].items():
+        hs2 = after["spaces"].get(k)
+        live = [h for h in hs if h in after["ents"] or minv.get(before["ents"].get(h, {}).get("type", ""), "AC1009") <= ver]
+        if hs2 is None:
+            if ver == "AC1009" and k.startswith("L:") and k not in ("L:Model", "L:Layout1"):
+                continue
+            ctx.fail(f"space-lost/{k[:2]}/{VNAME[ver]}", f"{label}{VNAME[ver]} {fmt}: {k} is missing after reload", rep)
+        elif [h for h in hs2 if h in before["ents"]] != live:
+            ctx.fail(f"order/{k[:2]}/{VNAME[ver]}", f"{label}{VNAME[ver]} {fmt}: entity order of {k} differs {live[:8]} -> {hs2[:8]}", rep)
+    if ver > "AC1009":
+        for tname, rows in before["tables"].items():
+            if not set(rows) <= set(after["tables"].get(tname, [])) if tname == "appids" else rows != after["tables"].get(tname):
+                ctx.fail(f"table/{tname}", f"{label}{VNAME[ver]} {fmt}: table {tname} differs {rows[:5]} -> {after['tables'].get(tname, [])[:5]}", rep)
+        live = [h for h in before["objects"] if h in after["ents"]]
+        got = [h for h in after["objects"] if h in before["ents"]]
+        if live != got:
+            ctx.fail("order/objects", f"{label}{VNAME[ver]} {fmt}: order of the OBJECTS section differs", rep)
+        if before["layouts"] != after["layouts"]:
+            ctx.fail("layouts", f"{label}{VNAME[ver]} {fmt}: layouts {before['layouts']} -> {after['layouts']}", rep)
+    return nfail
+
+
+def tag_kinds(doc, snap):
+    """mark entities that DXF R12 cannot represent (objects, table entries without handles)"""
+    objs = {o.dxf.handle for o in doc.objects} if doc.dxfversion > "AC1009" else set()
+    for h, b in snap["ents"].items():
+        if h in objs:
+            b["_kind"] = "object"
+        elif b["type"] in TABLE_ENTRY_TYPES or b["type"] == "TABLE":
+            b["_kind"] = "tableentry"
+    for e in doc.entitydb.values():
+        if e.is_alive and e.dxftype() == "INSERT" and e.seqend is not None and len(e.attribs) == 0:
+            h = e.seqend.dxf.handle
+            if h in snap["ents"]:
+                snap["ents"][h]["_kind"] = "seqend-without-attribs"
+
+
+_TOL = {}
+
+
+def by_design_codes(classes):
+    """(dxftype, group code) of the attributes listed in BY_DESIGN"""
+    if not _TOL:
+        for (t, name) in BY_DESIGN:
+            cls = classes.get(t)
+            a = cls.DXFATTRIBS.get(name) if cls else None
+            if a is not None:
+                _TOL[(t, a.code)] = True
+    return _TOL
+
+
+def roundtrip_check(ctx, stream, doc, ver, fmt, rep, classes, label="", second=True):
+    """write -> read -> compare, then the second cycle on the bytes"""
+    before = doc_snapshot(doc)
+    tag_kinds(doc, before)
+    try:
+        data = write_doc(doc, fmt)
+    except Exception as ex:  # noqa
+        if "All entities have to be in the same layout" in str(ex):
+            ctx.hist(stream, "write refused: group over several layouts (C04 finding)")
+            return None
+        ctx.fail(f"write-raised/{type(ex).__name__}/{label}", f"{label}{VNAME[ver]} {fmt}: write raised {type(ex).__name__}: {ex}"[:300], rep)
+        return None
+    try:
+        doc2 = read_doc(data, fmt, ctx.scratch)
+    except Exception as ex:  # noqa
+        ctx.fail(f"read-raised/{type(ex).__name__}/{label}", f"{label}{VNAME[ver]} {fmt}: reading the written file raised {type(ex).__name__}: {ex}"[:300], rep)
+        return None
+    after = doc_snapshot(doc2)
+    compare_docs(ctx, stream, before, after, ver, fmt, rep, classes, label)
+    if second:
+        try:
+            data2 = write_doc(doc2, fmt)
+            r1, r2 = stable_records(data, fmt), stable_records(data2, fmt)
+        except Exception as ex:  # noqa
+            ctx.fail(f"second-write-raised/{type(ex).__name__}", f"{label}{VNAME[ver]} {fmt}: second write raised {type(ex).__name__}: {ex}"[:300], rep)
+            return data
+        if r1 != r2:
+            tol = by_design_codes(classes)
+            diff = None
+            etype = "?"
+            for i, (x, y) in enumerate(zip(r1, r2)):
+                if x[0] == 0:
+                    etype = x[1]
+                if x != y and not (x[0] == y[0] and (etype, x[0]) in tol):
+                    diff = (i, x, y)
+                    break
+            if diff is None and len(r1) != len(r2):
+                diff = (min(len(r1), len(r2)), None, None)
+            if diff is None:
+                ctx.hist(stream, "second cycle differs only in by-design attributes")
+                return data
+            i = diff[0]
+            ctx.fail(f"second-cycle/{etype}/{diff[1][0] if diff[1] else 'len'}",
+                     f"{label}{VNAME[ver]} {fmt}: the second save differs from the first at tag {i} in {etype}: {diff[1]} -> {diff[2]} "
+                     f"({len(r1)} vs {len(r2)} tags)", rep)
+    return data
+
+
+# ====================================================================================== X4: payload codecs
+def x4_cases(ctx):
+    from ezdxf.entities.lwpolyline import LWPolylinePoints
+    from ezdxf.lldxf.types import DXFTag, DXFVertex
+    from ezdxf.lldxf.tags import text_to_multi_tags, multi_tags_to_text, Tags
+    from ezdxf.entities import factory
+    from ezdxf.entities.subentity import entity_linker
+    from ezdxf.lldxf.const import DXFStructureError
+
+    rng = ctx.rng("x4")
+    cases = []
+    fl = [0.0, -0.0, 1.0, 0.5, -2.5, 5e-324, 1e300, 1 / 3]
+    for i in range(ctx.n(800, 8000)):
+        # LWPOLYLINE point records: export of random records, load of random tag streams
+        pts = [[rng.choice(fl) for _ in range(5)] for _ in range(rng.randint(0, 5))]
+        pp = LWPolylinePoints(data=pts) if pts else LWPolylinePoints()
+        out = ";".join(ptag(t) for t in pp.dxftags())
+        cases.append(("lwexp|" + ";".join(".".join(str(fbits(c)) for c in p) for p in pts), out, any(c != 0 for p in pts for c in p[2:])))
+        ctx.hist("X4 payload codecs", "lwpolyline export")
+        raw = []
+        for _ in range(rng.randint(0, 10)):
+            c = rng.choice([10, 10, 40, 41, 42, 42, 70, 38, 43, 210])
+            if c == 10:
+                raw.append(DXFVertex(10, (rng.choice(fl), rng.choice(fl)) + ((rng.choice(fl),) if rng.random() < 0.2 else ())))
+            elif c == 210:
+                raw.append(DXFVertex(210, (0.0, 0.0, 1.0)))
+            elif c == 70:
+                raw.append(DXFTag(70, rng.choice([0, 1, 128])))
+            else:
+                raw.append(DXFTag(c, rng.choice(fl)))
+        pl, unp = LWPolylinePoints.from_tags(raw)
+        resp = ";".join(".".join(str(fbits(float(c))) for c in p) for p in pl) + "|" + ";".join(ptag(t) for t in unp)
+        cases.append(("lw|" + ";".join(ptag(t) for t in raw), resp, any(t.code in (40, 41, 42) for t in raw)))
+        ctx.hist("X4 payload codecs", "lwpolyline load")
+    # long strings
+    alpha = ["a", "b", "^", "J", "\n", "^J", "ä", " "]
+    for i in range(ctx.n(600, 6000)):
+        n = rng.choice([0, 1, 2, 3, 5, 9, 20, 254, 255, 256, 510, 600])
+        size = rng.choice([1, 2, 3, 5, 255, 255])
+        t = "".join(rng.choice(alpha) for _ in range(n))
+        tags = text_to_multi_tags(t, size=size)
+        back = multi_tags_to_text(tags)
+        resp = ";".join(".".join(str(ord(c)) for c in tg.value) for tg in tags) + "|" + ".".join(str(ord(c)) for c in back)
+        cases.append((f"mtags|{size}|" + ".".join(str(ord(c)) for c in t), resp, "\n" in t or "^" in t))
+        ctx.hist("X4 payload codecs", "multi tags")
+    # entity linker
+    kinds = ["P", "I1", "I0", "V", "A", "S", "O"]
+    mk = {"P": ("POLYLINE", {}), "I1": ("INSERT", {"attribs_follow": 1}), "I0": ("INSERT", {}), "V": ("VERTEX", {}),
+          "A": ("ATTRIB", {}), "S": ("SEQEND", {}), "O": ("LINE", {})}
+    import itertools
+
+    seqs = [list(t) for n in range(0, 4) for t in itertools.product(kinds, repeat=n)]
+    for _ in range(ctx.n(500, 5000)):
+        seq = []
+        for _ in range(rng.randint(1, 4)):
+            r = rng.random()
+            if r < 0.35:
+                seq += ["P"] + ["V"] * rng.randint(0, 3) + (["S"] if rng.random() < 0.9 else [])
+            elif r < 0.6:
+                seq += ["I1"] + ["A"] * rng.randint(0, 3) + (["S"] if rng.random() < 0.9 else [])
+            else:
+                seq.append(rng.choice(kinds))
+        seqs.append(seq)
+    for seq in seqs:
+        ents = [factory.new(mk[k][0], dict(mk[k][1])) for k in seq]
+        linker = entity_linker()
+        stored = []
+        try:
+            for idx, e in enumerate(ents):
+                if not linker(e):
+                    stored.append(idx)
+            ids = {id(e): i for i, e in enumerate(ents)}
+            parts = []
+            for idx in stored:
+                e = ents[idx]
+                k = seq[idx]
+                if k == "P" or k == "I1":
+                    subs = e.vertices if k == "P" else e.attribs
+                    # a SEQEND created by the entity itself (post_bind_hook) is not part of the stream
+                    se = e.seqend if (e.seqend is not None and id(e.seqend) in ids) else None
+                    parts.append(f"{idx}[" + ",".join(str(ids[id(x)]) for x in subs) + "]" + (str(ids[id(se)]) if se is not None else "-"))
+                else:
+                    parts.append(str(idx))
+            resp = ";".join(parts)
+        except DXFStructureError:
+            resp = "err DXFStructureError"
+        cases.append(("link|" + ";".join(seq), resp, any(k in ("P", "I1") for k in seq)))
+        ctx.hist("X4 payload codecs", "entity linker")
+    return cases
+
+
+def correspond(ctx):
+    ctx.correspond("X1 export one attribute", "C01", x1_cases(ctx), build=DRIVER_DEPS)
+    ctx.correspond("X2 generic loaders", "C01", x2_cases(ctx), build=DRIVER_DEPS)
+    exp_cases, load_cases = x3_cases(ctx)
+    ctx.correspond("X3 registered classes", "C01", exp_cases + load_cases, build=DRIVER_DEPS)
+    ctx.correspond("X4 payload codecs", "C01", x4_cases(ctx), build=DRIVER_DEPS)
+    # the generated plans against the model's own well-formedness (coverage numbers for the evidence)
+    data = schemas(ctx)
+    reqs = []
+    for c in data["classes"]:
+        for p in c["plans"]:
+            reqs.append(f"wf|{enc_name(c['dxftype'])}|{p['ver']}")
+    outs = ctx.driver("C01", reqs, build=DRIVER_DEPS)
+    bad = [r.split("|")[1:] for r, o in zip(reqs, outs) if not o.startswith("true")]
+    nexp = sum(int(o.split("exp=")[1].split()[0]) for o in outs if "exp=" in o)
+    ctx.note(f"wfPlan: {len(reqs) - len(bad)} of {len(reqs)} (class, version) plans well-formed; not well-formed: "
+             + ", ".join(f"{dec_name(int(d))}/{v}" for d, v in bad) + f"; attribute exports covered by the theorems: {nexp}")
+
+
+# ====================================================================================== O1: attribute sweep on zoo documents
+def classes_by_type():
+    from ezdxf.entities import factory
+
+    return dict(factory.ENTITY_CLASSES)
+
+
+def populate_single(e, j: int):
+    """set only the j-th settable attribute (mod count) of the entity, unset the other optional ones"""
+    from ezdxf.lldxf.attributes import XType
+
+    dxftype = e.dxftype()
+    names = [n for n, a in e.DXFATTRIBS._attribs.items()
+             if a.xtype != XType.callback and a.code > 0 and not is_structural(dxftype, n) and n not in ("handle", "owner")]
+    if not names:
+        return None
+    name = names[j % len(names)]
+    a = e.DXFATTRIBS.get(name)
+    cands = SPECIAL_VALUES.get((dxftype, name)) or candidates(a)
+    docver = e.doc.dxfversion if e.doc is not None else "AC1032"
+    for i in range(len(cands)):
+        v = text_for_version(cands[(i + j // len(names)) % len(cands)], docver)
+        if a.default is not None and v == a.default:
+            continue
+        try:
+            e.dxf.set(name, v)
+            return name
+        except Exception:  # noqa
+            continue
+    return None
+
+
+def o1_zoo(ctx, classes, small=False):
+    import ezdxf
+
+    stream = "O1 attribute sweep"
+    rng = ctx.rng("o1")
+    plan = []
+    salts = 1 if small else ctx.n(2, 10)
+    for ver in VERSIONS:
+        for salt in range(salts):
+            for fmt in ("asc", "bin"):
+                if ctx.quick and fmt == "bin" and salt > 0:
+                    continue
+                plan.append((ver, fmt, "all", salt))
+    nsingle = 2 if small else ctx.n(6, 110)
+    js = list(range(nsingle)) if not ctx.quick else sorted(rng.sample(range(110), nsingle))
+    for ver in VERSIONS:
+        for j in js:
+            plan.append((ver, "asc" if (j % 2 == 0 or ctx.quick) else "bin", "single", j))
+    for ver, fmt, mode, k in plan:
+        doc = ezdxf.new(VNAME[ver])
+        zoo = build_zoo(doc)
+        nset = 0
+        for i, (t, e) in enumerate(sorted(zoo.items())):
+            if mode == "all":
+                nset += len(populate(e, k + i))
+            elif populate_single(e, k) is not None:
+                nset += 1
+        rep = {"op": "zoo", "version": ver, "fmt": fmt, "mode": mode, "k": k}
+        ctx.count(stream, (ver, fmt, mode, k), True)
+        ctx.hist(stream, f"{mode} {VNAME[ver]} {fmt}")
+        ctx.hist(stream, "attributes set", nset)
+        # "all" sets every attribute of every entity at once, including combinations the by-design table explains per
+        # attribute only: the byte level second cycle is checked on the single-attribute and whole-document streams
+        roundtrip_check(ctx, stream, doc, ver, fmt, rep, classes, label=f"zoo[{mode} {k}] ", second=(mode == "single"))
+
+
+# ====================================================================================== O2: whole documents
+LONG_TEXTS = ["", "x", "a" * 249, "b" * 250, "c" * 251, "d" * 249 + "^", "e" * 249 + "^J", "f" * 500 + "^" + "g" * 10,
+              "h" * 2048, "i" * 2049, "j" * 2050, "k" * 2049 + "^", "l" * 5000, "caret ^ and ^J and ^M", "\\P\\fArial|b0;text{\\C1;red}",
+              "ä€ß中" * 70, "%%c %%d", "line1\\Pline2", "m" * 250 + "^" * 5]
+
+
+def build_rich(doc, rng, ver):
+    """type-rich content through the public factory API"""
+    import ezdxf
+    from ezdxf.math import Vec2
+
+    msp = doc.modelspace()
+    r2000 = ver > "AC1009"
+    texts = [text_for_version(t, ver) for t in LONG_TEXTS]  # characters outside the file encoding are C09's subject
+    fl = [0.0, -0.0, 0.5, 1.0, -2.25, 1 / 3, 1e-9, 123456.789, 5e-324]
+    rp = lambda: (rng.choice(fl) * 10, rng.choice(fl) * 10)  # noqa
+    rp3 = lambda: (rng.choice(fl) * 10, rng.choice(fl) * 10, rng.choice(fl))  # noqa
+    ents = []
+    blk = doc.blocks.new("RICHBLK")
+    blk.add_attdef("T1", (0, 0), "dflt")
+    blk.add_line((0, 0), (1, 1))
+    for _ in range(rng.randint(1, 3)):
+        ins = msp.add_blockref("RICHBLK", rp(), dxfattribs={"xscale": rng.choice([1, 2, -1]), "rotation": rng.choice([0, 30, 90])})
+        for k in range(rng.randint(0, 3)):
+            ins.add_attrib("T%d" % k, rng.choice(texts)[:200], rp())
+        ents.append(ins)
+    for _ in range(rng.randint(1, 3)):
+        pl = msp.add_polyline2d([rp() for _ in range(rng.randint(2, 5))], format="xy")
+        for v in pl.vertices:
+            v.dxf.bulge = rng.choice([0, 0.5, -1.0])
+            v.dxf.start_width = rng.choice([0, 0.1])
+        ents.append(pl)
+    ents.append(msp.add_polyline3d([rp3() for _ in range(rng.randint(2, 4))]))
+    mesh = msp.add_polymesh((rng.randint(2, 3), rng.randint(2, 3)))
+    ents.append(mesh)
+    pf = msp.add_polyface()
+    pf.append_face([(0, 0, 0), (1, 0, 0), (1, 1, 0), (0, 1, rng.choice(fl))])
+    ents.append(pf)
+    ents.append(msp.add_text(rng.choice(texts)[:255], dxfattribs={"height": rng.choice([0.5, 2.5]), "rotation": rng.choice(fl)}))
+    if r2000:
+        for _ in range(rng.randint(1, 4)):
+            pts = [(rng.choice(fl), rng.choice(fl), rng.choice([0.0, 0.0, 0.3, -0.0]), rng.choice([0.0, 0.0, 0.2, -0.0]),
+                    rng.choice([0.0, 0.0, 0.5, -1.0, -0.0])) for _ in range(rng.randint(1, 6))]
+            ents.append(msp.add_lwpolyline(pts, format="xyseb", close=rng.random() < 0.5))
+        for _ in range(rng.randint(1, 3)):
+            n = rng.randint(4, 7)
+            sp = msp.add_spline()
+            sp.control_points = [rp3() for _ in range(n)]
+            sp.knots = sorted(rng.choice([0.0, 0.25, 0.5, 1.0, 2.0]) for _ in range(n + 4))
+            if rng.random() < 0.5:
+                sp.weights = [rng.choice([1.0, 0.5, 2.0]) for _ in range(n)]
+            if rng.random() < 0.3:
+                sp.fit_points = [rp3() for _ in range(3)]
+            ents.append(sp)
+        for _ in range(rng.randint(1, 3)):
+            h = msp.add_hatch(color=rng.randint(1, 7))
+            h.paths.add_polyline_path([(0, 0, rng.choice([0, 0.5])), (3, 0), (3, 3, -0.4), (0, 3)], is_closed=rng.random() < 0.8)
+            if rng.random() < 0.7:
+                ep = h.paths.add_edge_path()
+                ep.add_line(rp(), rp())
+                ep.add_arc(rp(), radius=1.5, start_angle=rng.choice([0, 30.5]), end_angle=rng.choice([90, 270]), ccw=rng.random() < 0.5)
+                ep.add_ellipse(rp(), major_axis=(2, 0), ratio=0.5, start_angle=0, end_angle=rng.choice([180, 360]), ccw=rng.random() < 0.5)
+                ep.add_spline(control_points=[(0, 0), (1, 1), (2, 0), (3, 1)], knot_values=[0, 0, 0, 0, 1, 1, 1, 1], degree=3,
+                              periodic=0)
+                if rng.random() < 0.4:
+                    # explicit tangents: SplineEdge.export_dxf() computes missing ones from the fit points ("required")
+                    ep.add_spline(fit_points=[(0, 0), (1, 2), (2, 0)], control_points=[(0, 0), (1, 2), (2, 0), (3, 3)],
+                                  knot_values=[0, 0, 0, 0, 1, 1, 1, 1], weights=[1, 2, 1, 1], degree=3,
+                                  start_tangent=(1, 2), end_tangent=(1, -2))
+            k = rng.random()
+            if k < 0.35:
+                h.set_pattern_fill("ANSI31", scale=rng.choice([0.5, 1.0]), angle=rng.choice([0, 45]))
+            elif k < 0.6 and ver >= "AC1018":
+                h.set_gradient(color1=(10, 20, 30), color2=(200, 100, 0), rotation=rng.choice([0, 33.3]), centered=rng.choice([0.0, 1.0]),
+                               one_color=int(rng.random() < 0.3), name=rng.choice(["LINEAR", "SPHERICAL"]))
+            if rng.random() < 0.3:
+                h.set_seed_points([rp(), rp()])
+            ents.append(h)
+        for _ in range(rng.randint(2, 5)):
+            mt = msp.add_mtext(rng.choice(texts), dxfattribs={"char_height": rng.choice([0.7, 2.5]), "width": rng.choice([0, 30.0]),
+                                                                  "attachment_point": rng.randint(1, 9)})
+            ents.append(mt)
+        m = msp.add_mesh()
+        with m.edit_data() as md:
+            md.vertices = [(0, 0, 0), (1, 0, 0), (1, 1, 0), (0, 1, 0), (0.5, 0.5, rng.choice(fl))]
+            md.faces = [(0, 1, 4), (1, 2, 4), (2, 3, 4), (3, 0, 4)]
+            md.add_edge_crease(0, 1, rng.choice([0.0, 1.0, 3.0]))
+            md.add_edge_crease(1, 2, 0.5)
+        ents.append(m)
+        # distinct consecutive vertices (generate_geometry() divides by the segment length)
+        mlv = [(0.0, 0.0, 0.0), (3.0, rng.choice([0.0, 0.5]), 0.0), (3.0, 3.0, 0.0), (rng.choice([0.0, -1.0]), 3.0, 0.0)][: rng.randint(2, 4)]
+        ents.append(msp.add_mline(mlv, close=(len(mlv) > 2 and rng.random() < 0.3)))
+        ents.append(msp.add_leader([rp() for _ in range(rng.randint(2, 4))]))
+        from ezdxf.render import mleader as _mld
+
+        ml = msp.add_multileader_mtext("Standard")
+        ml.set_content(rng.choice(texts)[:300] or "x")
+        ml.add_leader_line(_mld.ConnectionSide.left, [Vec2(rp()), Vec2(rp())])
+        if rng.random() < 0.5:
+            ml.add_leader_line(_mld.ConnectionSide.right, [Vec2(rp())])
+        ml.build(Vec2(5, 5))
+        ents.append(ml.multileader)
+        for fn in (lambda: msp.add_linear_dim((0, 3), (0, 0), (5, 0), angle=rng.choice([0, 30])),
+                   lambda: msp.add_aligned_dim((0, 0), (3, 4), 1),
+                   lambda: msp.add_radius_dim((0, 0), radius=3, angle=rng.choice([10, 200])),
+                   lambda: msp.add_angular_dim_cra((0, 0), 3, 10, 80, 2)):
+            if rng.random() < 0.6:
+                d = fn()
+                d.render()
+                ents.append(d.dimension)
+        imgdef = doc.add_image_def("pic%d.png" % rng.randint(0, 9), (640, 480))
+        img = msp.add_image(imgdef, rp(), (6.4, 4.8), rotation=rng.choice([0, 15]))
+        if rng.random() < 0.5:
+            img.set_boundary_path([(0, 0), (100, 0), (100, 100), (0, 100)])
+        ents.append(img)
+        ents.append(msp.add_ellipse(rp(), (3, 1), rng.choice([0.3, 1.0]), 0, rng.choice([3.14, 6.283185307179586])))
+        # groups, layouts, objects
+        g = doc.groups.new("G%d" % rng.randint(0, 99))
+        g.set_data(rng.sample(ents, min(3, len(ents))))
+        if rng.random() < 0.6:
+            lay = doc.layouts.new("Rich Layout %d" % rng.randint(0, 9))
+            lay.add_line((0, 0), (1, 1))
+            lay.add_viewport((3, 3), (4, 4), (0, 0), 10)
+        xr = doc.rootdict.add_xrecord("RICH_XREC")
+        xr.reset([(1, rng.choice(texts)[:255]), (40, rng.choice(fl)), (90, rng.randint(-5, 5)), (10, (1.0, 2.0, 3.0)), (330, "1F")])
+        doc.rootdict.add_dict_var("RICH_VAR", "value")
+    for e in rng.sample(ents, min(len(ents), 6)):
+        k = rng.random()
+        if k < 0.35:
+            doc.appids.add("RICHAPP") if "RICHAPP" not in doc.appids else None
+            e.set_xdata("RICHAPP", [(1000, rng.choice(texts)[:255]), (1002, "{"), (1040, rng.choice(fl)), (1070, rng.randint(-9, 9)),
+                                    (1071, 2 ** 31 - 1), (1010, (1.0, -0.0, 3.5)), (1002, "}"), (1005, "1F"), (1004, b"\x00\x01\xfe\xff")])
+        elif k < 0.55 and r2000:
+            e.set_app_data("RICHAPPDATA", [(1, "appdata"), (70, 7)])
+        elif k < 0.75 and r2000:
+            e.append_reactor_handle(ents[0].dxf.handle)
+        elif r2000:
+            xd = e.new_extension_dict()
+            xd.add_dictionary_var("XV", "xdict value")
+    # tables
+    doc.layers.add("RICH LAYER", color=rng.randint(1, 255), linetype="CONTINUOUS")
+    doc.linetypes.add("RICHLT", [0.6, 0.5, -0.1], description="rich . . .")
+    doc.styles.add("RICHSTYLE", font="arial.ttf")
+    ds = doc.dimstyles.new("RICHDIM")
+    ds.dxf.dimtxt = rng.choice([0.5, 2.5])
+    ds.dxf.dimpost = rng.choice(["", "<> mm"])
+    ds.dxf.dimscale = rng.choice([1.0, 100.0])
+    doc.ucs.new("RICHUCS")
+    doc.views.new("RICHVIEW")
+    return ents
+
+
+class _Timeout(Exception):
+    pass
+
+
+def _on_alarm(signum, frame):
+    raise _Timeout()
+
+
+def o2_documents(ctx, classes, small=False):
+    import random
+    import ezdxf
+    from gen.dochist import Runner, gen_rich
+
+    stream = "O2 whole documents"
+    rng = ctx.rng("o2")
+    for i in range(7 if small else ctx.n(28, 420)):
+        ver = VERSIONS[i % 7]
+        seed = rng.randrange(1 << 30)
+        fmt = "asc" if (i // 7) % 2 == 0 else "bin"
+        r = random.Random(seed)
+        doc = ezdxf.new(VNAME[ver])
+        rep = {"op": "rich", "version": ver, "fmt": fmt, "seed": seed}
+        try:
+            build_rich(doc, r, ver)
+        except Exception as ex:  # noqa  a factory call refusing its arguments is not a round trip problem
+            ctx.note(f"O2: build_rich {VNAME[ver]} seed {seed}: {type(ex).__name__} {str(ex)[:80]}")
+            ctx.hist(stream, "generator exception")
+            continue
+        ctx.count(stream, ("rich", ver, fmt, seed), True)
+        ctx.hist(stream, f"type-rich {VNAME[ver]} {fmt}")
+        roundtrip_check(ctx, stream, doc, ver, fmt, rep, classes, label="rich ")
+    for i in range(7 if small else ctx.n(42, 700)):
+        ver = VERSIONS[i % 7]
+        seed = rng.randrange(1 << 30)
+        fmt = "asc" if (i // 7) % 2 == 0 else "bin"
+        hr = random.Random(seed)
+        length = hr.choice([8, 16, 30])
+        run = Runner(VNAME[ver])
+        choose = gen_rich(hr)
+        ops = []
+        signal.signal(signal.SIGALRM, _on_alarm)
+        try:
+            for _ in range(length):
+                op = choose(run)
+                if op[0] in ("reload", "reactor", "audit"):
+                    continue
+                if ver == "AC1009" and op[0] in ("newlayout", "dellayout", "renlayout", "activate"):
+                    continue
+                signal.alarm(5)  # same watchdog as C04: a few generated operations are known not to terminate
+                try:
+                    run.apply(op)
+                finally:
+                    signal.alarm(0)
+                ops.append(op[0])
+        except _Timeout:
+            ctx.hist(stream, "history watchdog skip")
+            continue
+        except Exception as ex:  # noqa
+            ctx.hist(stream, "history exception " + type(ex).__name__)
+            continue
+        for o in ops:
+            ctx.hist(stream, "op " + o)
+        ctx.count(stream, ("history", ver, fmt, seed), True)
+        rep = {"op": "history", "version": ver, "fmt": fmt, "seed": seed, "length": length}
+        roundtrip_check(ctx, stream, run.doc, ver, fmt, rep, classes, label="history ")
+
+
+# ====================================================================================== O3: with and without C-extensions
+CHILD = r'''
+import sys, os, json, random, pathlib, tempfile
+sys.path.insert(0, os.path.join(os.environ["VERIF_REPO_"], "src")); sys.path.insert(0, "/verif/harness"); sys.path.insert(0, "/verif/harness/props")
+import ezdxf, c01
+from ezdxf import options
+
+
+class MiniCtx:
+    quick = True
+    tier = "quick"
+
+    def __init__(self, seed, scratch):
+        self.seed, self.scratch, self.fails, self.counts = seed, pathlib.Path(scratch), [], {}
+
+    def n(self, q, t):
+        return q
+
+    def rng(self, salt=""):
+        return random.Random(f"{self.seed}/C01-child/{salt}")
+
+    def hist(self, *a, **k):
+        pass
+
+    def note(self, s):
+        pass
+
+    def count(self, stream, case, nontrivial=True, sample=None):
+        self.counts[stream] = self.counts.get(stream, 0) + 1
+
+    def fail(self, key, what, rep):
+        if not any(f[0] == key for f in self.fails):
+            self.fails.append((key, what, rep))
+
+
+with tempfile.TemporaryDirectory(dir=os.environ["C01_SCRATCH"]) as tmp:
+    ctx = MiniCtx(sys.argv[1], tmp)
+    classes = c01.classes_by_type()
+    c01.o1_zoo(ctx, classes, small=True)
+    c01.o2_documents(ctx, classes, small=True)
+    print(json.dumps({"cext": bool(getattr(options, "use_c_ext", False)), "counts": ctx.counts, "fails": ctx.fails}, default=str))
+'''
+
+
+def o3_cext(ctx):
+    """the same round trip predicate in a process that runs the pure Python implementation (EZDXF_DISABLE_C_EXT=1).
+    Bytes are NOT compared across the two modes: computed geometry (dimension rendering, MLINE/HELIX construction) differs
+    in the last bit between the Cython and the Python math kernels, which is C10's subject."""
+    import json
+
+    stream = "O3 without C-extensions"
+    repo = os.environ.get("VERIF_REPO", "/repo")
+    env = dict(os.environ)
+    env["VERIF_REPO_"] = repo
+    env["EZDXF_DISABLE_C_EXT"] = "1"
+    env["C01_SCRATCH"] = str(ctx.scratch)
+    r = subprocess.run([sys.executable, "-c", CHILD, str(ctx.seed)], env=env, capture_output=True, text=True, timeout=1500)
+    if r.returncode != 0:
+        ctx.fail("cext/child-failed", f"round trip run without C-extensions failed: {r.stderr[-400:]}", {"op": "cext"})
+        return
+    res = json.loads(r.stdout.strip().splitlines()[-1])
+    from ezdxf import options
+
+    ctx.note(f"O3: this process use_c_ext={getattr(options, 'use_c_ext', None)}, child use_c_ext={res['cext']}, child documents {res['counts']}")
+    for st, n in res["counts"].items():
+        for i in range(n):
+            ctx.count(stream, (st, i), True)
+    for key, what, rep in res["fails"]:
+        ctx.fail(key, "[EZDXF_DISABLE_C_EXT=1] " + what, rep)
+
+
+# ====================================================================================== O4: probes for the tier-2 statements
+def o4_probes(ctx):
+    from ezdxf.lldxf.tags import text_to_multi_tags, multi_tags_to_text
+
+    stream = "O4 long string tags"
+    rng = ctx.rng("o4")
+    texts = ["", "a^Jb", "^J", "a\nb", "^\nJ", "x" * 255 + "^J", "x" * 254 + "^" + "J", "^^J", "^J" * 200]
+    alpha = ["a", "^", "J", "\n", " ", "ä"]
+    for _ in range(ctx.n(400, 4000)):
+        texts.append("".join(rng.choice(alpha) for _ in range(rng.choice([1, 3, 8, 260, 520]))))
+    for t in texts:
+        ctx.count(stream, t, "^" in t or "\n" in t)
+        back = multi_tags_to_text(text_to_multi_tags(t))
+        if back != t:
+            kind = "literal-caretJ" if "^J" in t else "other"
+            ctx.fail(f"multitags/{kind}/{t[:20]!r}", f"multi_tags_to_text(text_to_multi_tags({t[:40]!r})) = {back[:40]!r}", {"op": "multitags", "text": t})
+
+
+def oracle(ctx):
+    classes = classes_by_type()
+    o1_zoo(ctx, classes)
+    o2_documents(ctx, classes)
+    o3_cext(ctx)
+    o4_probes(ctx)
+
+
+def replay(ctx, rep):
+    import random
+    import ezdxf
+
+    classes = classes_by_type()
+    n0 = 0
+    for f in rep.get("failing_inputs", []):
+        r = f["replay"]
+        before = len(ctx.failures)
+        if r.get("op") == "zoo":
+            doc = ezdxf.new(VNAME[r["version"]])
+            zoo = build_zoo(doc)
+            for i, (t, e) in enumerate(sorted(zoo.items())):
+                if r["mode"] == "all":
+                    populate(e, r["k"] + i)
+                else:
+                    populate_single(e, r["k"])
+            roundtrip_check(ctx, "replay", doc, r["version"], r["fmt"], r, classes)
+        elif r.get("op") == "rich":
+            doc = ezdxf.new(VNAME[r["version"]])
+            build_rich(doc, random.Random(r["seed"]), r["version"])
+            roundtrip_check(ctx, "replay", doc, r["version"], r["fmt"], r, classes)
+        elif r.get("op") == "multitags":
+            from ezdxf.lldxf.tags import text_to_multi_tags, multi_tags_to_text
+            if multi_tags_to_text(text_to_multi_tags(r["text"])) != r["text"]:
+                ctx.fail(f["key"], "still fails", r)
+        n0 += 1 if any(x.key == f["key"] for x in ctx.failures[before:]) else 0
+    bad = [x.key for x in ctx.failures]
+    still = [f["key"] for f in rep.get("failing_inputs", []) if f["key"] in bad]
+    return (not still, "; ".join(still[:10]) or "all recorded failing inputs pass now")
